@@ -563,7 +563,7 @@ func generate(c *drv.Ctx) {
 		{kind{"string", ""}, [][]string{{""}, {"ab", ""}, {}}},
 	}
 	for _, l := range locations {
-		if l.In == "path" {
+		if l.In == "path" || (!thorough && l.Enc == "urlencoded") {
 			continue
 		}
 		for _, rq := range []bool{false, true} {
@@ -660,7 +660,7 @@ func generate(c *drv.Ctx) {
 	// (6) seeded random declarations and literals
 	n := 1500
 	if thorough {
-		n = 30000
+		n = 20000
 	}
 	for i := 0; i < n; i++ {
 		c.Case(randomCase(c.Rng))
